@@ -333,9 +333,9 @@ func spaces(tier string) []*gridx.Space {
 	}
 	// long periodic series (anything a kernel accumulates over the steps of one call, and that a split run restarts)
 	for _, t := range tables.Stateful() {
-		rep := 150
+		rep := 520 // 1040 steps: beyond a year of daily steps and beyond 1024
 		if tier == "thorough" {
-			rep = 400
+			rep = 1100
 		}
 		out = append(out, &gridx.Space{Model: t.Model, Params: t.Params, PNames: t.PNames, Letters: t.Letters, T: 2, MinT: 2, Repeat: rep, SecondPassEvery: -1, Oracle: oracle(t.Model)})
 	}
@@ -345,7 +345,7 @@ func spaces(tier string) []*gridx.Space {
 func Spec() *vf.Check {
 	return &vf.Check{
 		ID: "C06", Level: "exploration", BlockSize: 256,
-		Rule: "17 stateful models x the parameter vectors of tables.Stateful() (every state-shape variant and branch) x every input word of length T over the model's alphabet x every composition of T (2^(T-1)-1 split patterns incl. 1-step segments and multiple splits), plus every two-letter word repeated 150 (thorough 400) times as one long series, cut in the middle / after the first step / before the last / at the thirds / at every period; " +
+		Rule: "17 stateful models x the parameter vectors of tables.Stateful() (every state-shape variant and branch) x every input word of length T over the model's alphabet x every composition of T (2^(T-1)-1 split patterns incl. 1-step segments and multiple splits), plus every two-letter word repeated 520 (thorough 1100) times as one long series, cut in the middle / after the first step / before the last / at the thirds / at every period; " +
 			"concatenated outputs and final states vs the uninterrupted run; for Lag and GR4J (state row length depends on a parameter) the same again with the cell run in ONE vectorised call next to a companion cell with a longer state row (padded row; rectangular state array carried forward) (round-off tolerance; StorageRouting: the solver's mass-balance tolerance per elapsed step). distinct_nontrivial = words with a non-zero output; counters.split_runs = split patterns executed.",
 		Assumptions: []string{"StorageRouting's solver keeps an initial guess that is not a state: 2*massBalanceLimit per elapsed step is allowed on storage, the corresponding bound on outflow", "lattice values and horizon T only"},
 		Build:       func(tier string) vf.Enumeration { return gridx.NewEnum("C06", spaces(tier)) },
